@@ -129,7 +129,7 @@ def cpp_dynamic(ty, want=('R', 'W', 'O')):
             L.append('    for (int i = 0; i < 16; ++i) { F.pre[i] = (T)77; F.post[i] = (T)77; } for (size_t i = 0; i < %d; ++i) F.A.data()[i] = (T)(10 + i);' % n)
             L.append('    PT B; for (size_t i = 0; i < %d; ++i) B.data()[i] = (T)(5 + (i * 3) %% 7);' % n)
             L.append('    const int n = (int)F.A(%s).size();' % va)
-            L.append('    Tensor<T,64>& S = Src<T>::get(); (void)S; (void)n;')
+            L.append('    Tensor<T,256>& S = Src<T>::get(); (void)S; (void)n;')
             for op_i, op in enumerate(OPS):
                 L.append('    if (op == %d) {' % op_i)
                 L.append('      if (rhs == 0) F.A(%s) %s (T)3;' % (va, op))
